@@ -213,7 +213,21 @@ def c16_2(ctx: Ctx) -> RuleResult:
     # EnsembleEvaluator objects are created inside step runs (fresh generator per run)
     init = ee.methods["__init__"]
     for caller, call in ctx.cg.callers(init):
-        ok = caller.name == "run" and caller.cls is not None and ctx.repo.is_subclass(caller.cls, "ropt.plugins.plan.base.PlanStep")
+        def only_from_run(g, seen=None):
+            """g is the step's run, or a private piece of it: every call chain into g starts in run of the same class"""
+            seen = seen or set()
+            if g.cls is None or not ctx.repo.is_subclass(g.cls, "ropt.plugins.plan.base.PlanStep"):
+                return False
+            if g.name == "run":
+                return True
+            if g.qualname in seen or not g.name.startswith("_"):
+                return False
+            seen.add(g.qualname)
+            cs = ctx.cg.callers(g)
+            return bool(cs) and all(c_.cls is g.cls and only_from_run(c_, seen) for c_, _n in cs)
+
+        stored = isinstance(parent(call), ast.Assign) and any(isinstance(t_, ast.Attribute) for t_ in parent(call).targets)
+        ok = only_from_run(caller) and not stored
         res.add(caller, call, "EnsembleEvaluator is constructed inside a plan step's run (per run, not shared)", ok,
                 "" if ok else "an evaluator (and its generator) constructed here outlives a single run", construct=f"{caller.qualname.split('.')[-2]}.{caller.name}: EnsembleEvaluator()")
     res.floor = 8
